@@ -83,8 +83,9 @@ func init() {
 
 func Spec() *mon.Spec {
 	return &mon.Spec{
-		ID:    "C13",
-		Level: "exploration",
+		ID:      "C13",
+		RuleAdd: "Later additions (rounds 4-17): near-twin fields; reads on views configured with WithByteOrder; byte slices returned by the raw accessors are overwritten and grown by their caller; concurrent readers on plain and configured views; the same Field value read twice; histories of chained reads view.WithByteOrder(o).X(addr) incl. incomplete orders.",
+		Level:   "exploration",
 		Rule: fmt.Sprintf("a register response (FC3/FC4/FC23, TCP/RTU) is parsed from a frame buffer by the library and viewed through AsRegisters; a history of accessor calls (%d accessor variants incl. all documented orders) runs on ONE view. Monitors: the whole frame buffer (which the payload aliases) is compared with its snapshot after every call; every call's result must equal the result of the same call made alone on a freshly parsed copy (=> repeat- and order-independence). ", len(variants)) +
 			"pairs: all ordered pairs of variants on overlapping addresses of a 6-register payload (exhaustive); history: PRNG histories of length 1..12; extract: builder requests with overlapping fields of mixed byte orders: ExtractFields strict+lenient, repeated, with permuted field order, and Field.ExtractFrom on one shared Registers, compared per field name with the field extracted alone. distinct key=(ordered variant pair | history hash | field-list hash).",
 		Assumptions: []string{"results are compared by printed value (floats by bit pattern); the 'alone' baseline is the library itself on a fresh copy, so this check decides interference, not decoding correctness (C04 does that)"},
